@@ -10,6 +10,7 @@ children: `RulesOk`, decidable).  Hence
                                `Inv Hc s'` and `FrameG s s'`, for ALL states, rule tables and receivers.
 -/
 import PyOak.Props.C19Transform
+import PyOak.Props.C19RejectedBridge   -- + C19Rejected (the invariant survives rejected steps; uniform frame theorem)
 namespace PyOak.Legacy.C19T
 open PyOak PyOak.Legacy LState PyOak.Legacy.C19
 
